@@ -262,3 +262,29 @@ reg("C10", "model_checking", "E4",
     "nobody raises (torn result), no deadlock/livelock.",
     "Processes are modelled by threads sharing only the file system (own Submitter/Job objects, per-thread cwd, same PID in lock files = owner alive); "
     "a yielding poller hands over fairly (no branching) so that poll loops cannot ping-pong; per-subtree execution caps are reported.")
+
+reg("C12", "fault_enumeration", "E5a",
+    "exhaustive crash-point enumeration with real killed processes + truncation sweep of the result pickles",
+    "For job types {python ok, python raising, workflow (debug worker), workflow (async virtual worker), shell echo}: a forked "
+    "child runs the submission and is killed with os._exit before EVERY file-system mutation under the cache root and after the "
+    "first half of every pickle write (all points, both tiers); the parent reaps it and a second forked child resubmits the same "
+    "task: it must terminate, return the reference outputs (the raising task must fail again) and never treat the crash as success. "
+    "Then every truncation length of _result.pklz / _error.pklz (quick: all lengths of the first and last 64 bytes and every 8th in "
+    "between; thorough: every length) is planted and the task resubmitted.",
+    "A crash between two FS mutations equals a crash right before the next one; os._exit in a forked child = SIGKILL; power loss (un-synced pages) out of scope; "
+    "watchdog time-outs must reproduce with 4x budget.")
+reg("C33", "exploration", "E1",
+    "exhaustive enumeration of nested output shapes x name-collision patterns x file kinds x workflow layouts, each a real run",
+    "6 shapes {f, [f,g], (f,g), {'k':f}, [[f],[g]], {'k':[f,g]}} x {same name in two directories, distinct names, same object twice} "
+    "(thorough: + counter-name, same path) x {File, Directory tree} x 1-2 output fields x layouts {one producer, two producers + "
+    "packing node} (thorough: + nested workflow), run fresh and again as a cache hit: every returned path lies inside the "
+    "workflow's own cache directory, bytes/trees equal the source, distinct sources get distinct destinations, the same object "
+    "twice inside one field one destination, container shape and types preserved.",
+    "Sharing of one source across two different fields is not prescribed (counted only).")
+reg("C34", "exploration", "E1",
+    "exhaustive enumeration of file-input types x copy modes x collations x values at two seams (Job.inputs and a real execution)",
+    "{python, shell} x {File, list[File], dict[str,File], tuple[File,int], MultiInputObj[File], two File fields} x 6 copy modes x 3 "
+    "collations x 21 values (repeated objects, equal names in different directories, non-file members; thorough adds a two-path "
+    "file kind): copy => independent copy inside the job directory and the original stays intact when the copy is written; link "
+    "modes => a link showing the original content; container shape and non-file members unchanged; a repeated object is staged once.",
+    "Single tmpfs mount (no mount-dependent downgrade exercised); which kind of link is used is coverage only.")
